@@ -87,7 +87,18 @@ def make (c):
     sc = float (10 ** rng.uniform (-2, 2)) if rng.random () < 0.6 else None
     spec ['motion'] = dict (tr = tr, sc = sc, per_tag = per_tag, order = [int (x) for x in rng.permutation (len (tr))])
     spec ['dirs'] = rng.normal (size = (8, 3)).tolist ()
-    return gen.clean (spec)
+    spec = gen.clean (spec)
+    # tapered wires (default limits, which follow the radius): none that carries a source or load, those are
+    # placed by location on the equal segmentation
+    marks = [np.array (x ['at']) for x in spec ['src'] + spec ['loads'] if 'at' in x]
+    rng2  = np.random.default_rng ([c ['seed'], 55, c ['i']])
+    for g in spec ['geo']:
+        if g ['k'] == 'w' and g ['n'] >= 3 and rng2.random () < 0.4:
+            p1, p2 = np.array (g ['p1']), np.array (g ['p2'])
+            on = any (np.linalg.norm (np.cross (p2 - p1, x - p1)) < 1e-9 * np.linalg.norm (p2 - p1) ** 2 and -1e-9 <= (x - p1) @ (p2 - p1) / ((p2 - p1) @ (p2 - p1)) <= 1 + 1e-9 for x in marks)
+            if not on:
+                g ['taper'] = [int (rng2.integers (1, 4)), None, None]
+    return spec
 # end def make
 
 def transform (tr, sc):
@@ -167,6 +178,10 @@ def check (c):
     base = {k: v for k, v in spec.items () if k not in ('motion', 'dirs')}
     mA = gen.build (base)
     ok, why, facts = gen.validity (mA, seg_max = 1 / 10., check_junction_ratio = None)
+    if any (g.get ('taper') for g in spec ['geo']):
+        # the short end segments of a tapered wire are what tapering is for; the invariance does not rest on them
+        why = [w for w in why if w not in ('adjacent segment ratio > 2.1', 'segment < 8 radii', 'segment < lambda/200')]
+        ok  = not why
     if not ok:
         return dict (status = 'discard', reason = 'validity: ' + why [0])
     b1, b2, T, Tv = variants (spec)
